@@ -839,6 +839,11 @@ fn corpus_fonts() -> Vec<(String, Vec<u8>)> {
 }
 
 pub fn run(cfg: &Config, s: &mut Session, r: &mut Rng) {
+    run_gvar(cfg, s, r);
+    run_meta(cfg, s, r);
+}
+
+fn run_gvar(cfg: &Config, s: &mut Session, r: &mut Rng) {
     let th = cfg.thorough();
 
     // (β1) small random variable fonts
@@ -1002,5 +1007,474 @@ pub fn run(cfg: &Config, s: &mut Session, r: &mut Rng) {
             run_request(s, &fc, &req);
         }
         run_request(s, &fc, &Req { gids: (0..n as u32).collect(), unicodes: vec![], flags: F_NOTDEF_OUTLINE });
+    }
+}
+
+// =============================================================================================
+// OS/2, name, post  (klippa/src/os2.rs, name.rs, post.rs; model FontVerif.SubsetMeta)
+// =============================================================================================
+
+const F_NAME_LEGACY: u16 = 0x0008;
+const F_GLYPH_NAMES: u16 = 0x0080;
+const F_NO_PRUNE: u16 = 0x0100;
+
+fn with_tables(font: &[u8], tables: Vec<([u8; 4], Vec<u8>)>) -> Vec<u8> {
+    let f = FontRef::new(font).expect("base font");
+    let mut b = FontBuilder::new();
+    for (tag, data) in tables {
+        b.add_raw(Tag::new(&tag), data);
+    }
+    b.copy_missing_tables(f);
+    b.build()
+}
+
+/// a name table (version 0): records in the given order, strings stored in a shuffled order with optional
+/// sharing (equal strings stored once) and junk between them
+fn build_name(r: &mut Rng, recs: &[(u16, u16, u16, u16, Vec<u8>)], share: bool, hostile_last: bool) -> Vec<u8> {
+    let mut order: Vec<usize> = (0..recs.len()).collect();
+    r.shuffle(&mut order);
+    let mut storage: Vec<u8> = vec![];
+    let mut offs = vec![0usize; recs.len()];
+    let mut seen: Vec<(Vec<u8>, usize)> = vec![];
+    for i in order {
+        let st = &recs[i].4;
+        if share {
+            if let Some((_, o)) = seen.iter().find(|(b, _)| b == st) {
+                offs[i] = *o;
+                continue;
+            }
+        }
+        if r.chance(1, 4) {
+            let junk = r.below(4) as usize;
+            storage.extend(r.bytes(junk));
+        }
+        offs[i] = storage.len();
+        seen.push((st.clone(), offs[i]));
+        storage.extend_from_slice(st);
+    }
+    let mut t = vec![];
+    pu16(&mut t, 0);
+    pu16(&mut t, recs.len() as u32);
+    pu16(&mut t, 6 + 12 * recs.len() as u32);
+    for (i, (p, e, l, n, st)) in recs.iter().enumerate() {
+        pu16(&mut t, *p as u32);
+        pu16(&mut t, *e as u32);
+        pu16(&mut t, *l as u32);
+        pu16(&mut t, *n as u32);
+        pu16(&mut t, st.len() as u32);
+        let off = if hostile_last && i + 1 == recs.len() { storage.len() + 3 } else { offs[i] };
+        pu16(&mut t, off as u32);
+    }
+    t.extend_from_slice(&storage);
+    t
+}
+
+fn rand_name(r: &mut Rng, id: u64) -> Vec<u8> {
+    let count = match id % 6 {
+        0 => 0,
+        1 => 1 + r.below(3) as usize,
+        5 => 22 + r.below(20) as usize,
+        _ => 3 + r.below(12) as usize,
+    };
+    let pool: Vec<Vec<u8>> = (0..6)
+        .map(|i| {
+            let len = if i == 0 && id % 3 == 0 { 0 } else { 1 + r.below(12) as usize };
+            r.bytes(len)
+        })
+        .collect();
+    let mut recs: Vec<(u16, u16, u16, u16, Vec<u8>)> = vec![];
+    for _ in 0..count {
+        let (p, e) = *r.pick(&[(0u16, 3u16), (0, 4), (1, 0), (3, 1), (3, 1), (3, 10), (3, 0), (3, 3), (2, 1)]);
+        let l = *r.pick(&[0x0409u16, 0x0409, 0x0409, 0, 0x0407, 0x0411]);
+        let n = *r.pick(&[0u16, 1, 2, 3, 4, 5, 6, 7, 13, 256, 257, 258, 300]);
+        let st = if r.chance(2, 3) { r.pick(&pool).clone() } else { let len = r.below(15) as usize; r.bytes(len) };
+        // records that tie on the whole sort key but differ in their string would make the order of an unstable
+        // sort observable: keep the key unique (the length is part of the key)
+        if recs.iter().any(|x| x.0 == p && x.1 == e && x.2 == l && x.3 == n && x.4.len() == st.len()) {
+            continue;
+        }
+        recs.push((p, e, l, n, st));
+    }
+    let share = r.chance(1, 2);
+    build_name(r, &recs, share, id % 17 == 16 && !recs.is_empty())
+}
+
+fn rand_os2(r: &mut Rng, id: u64) -> Vec<u8> {
+    let version = *r.pick(&[0u16, 1, 2, 4, 5]);
+    let len = match version {
+        0 => 78,
+        1 => 86,
+        2..=4 => 96,
+        _ => 100,
+    };
+    let mut t = r.bytes(len);
+    t[0] = 0;
+    t[1] = version as u8;
+    if id % 3 == 0 {
+        for b in &mut t[42..58] {
+            *b = 0xFF;
+        }
+    }
+    t
+}
+
+/// (table, expected glyph names per gid)
+fn rand_post(r: &mut Rng, id: u64, n: usize) -> Vec<u8> {
+    let mut t = vec![];
+    let version: u32 = match id % 4 {
+        0 => 0x0003_0000,
+        1 if n == 258 => 0x0001_0000,
+        _ => 0x0002_0000,
+    };
+    pu32(&mut t, version);
+    t.extend(r.bytes(28));
+    if version == 0x0002_0000 {
+        pu16(&mut t, n as u32);
+        let ordered = id % 3 != 2;
+        let mut names: Vec<Vec<u8>> = vec![];
+        let mut idx: Vec<u16> = vec![];
+        for g in 0..n {
+            if r.chance(1, 3) {
+                idx.push(r.below(258) as u16);
+            } else if !ordered && !names.is_empty() && r.chance(1, 4) {
+                // two glyphs sharing one custom name
+                idx.push(258 + r.below(names.len() as u64) as u16);
+            } else {
+                let nm = if r.chance(1, 10) { b"space".to_vec() } else { format!("g{}x{}", g, r.below(50)).into_bytes() };
+                names.push(nm);
+                idx.push(258 + names.len() as u16 - 1);
+            }
+        }
+        if !ordered {
+            // permute the string table: indices keep denoting the same names, but not in glyph order
+            let mut perm: Vec<usize> = (0..names.len()).collect();
+            r.shuffle(&mut perm);
+            let mut new_names = vec![vec![]; names.len()];
+            for (old, new) in perm.iter().enumerate() {
+                new_names[*new] = names[old].clone();
+            }
+            for i in idx.iter_mut() {
+                if *i >= 258 {
+                    *i = 258 + perm[(*i - 258) as usize] as u16;
+                }
+            }
+            names = new_names;
+        }
+        for i in &idx {
+            pu16(&mut t, *i as u32);
+        }
+        for nm in &names {
+            t.push(nm.len() as u8);
+            t.extend_from_slice(nm);
+        }
+    }
+    t
+}
+
+fn name_records(t: &[u8]) -> Option<Vec<(u16, u16, u16, u16, u16, u16, Option<Vec<u8>>)>> {
+    let rd = |i: usize| -> Option<u16> { Some(u16::from_be_bytes([*t.get(i)?, *t.get(i + 1)?])) };
+    let count = rd(2)? as usize;
+    let storage = rd(4)? as usize;
+    let mut out = vec![];
+    for k in 0..count {
+        let b = 6 + 12 * k;
+        let (len, off) = (rd(b + 8)?, rd(b + 10)?);
+        let st = t.get(storage + off as usize..storage + off as usize + len as usize).map(|x| x.to_vec());
+        out.push((rd(b)?, rd(b + 2)?, rd(b + 4)?, rd(b + 6)?, len, off, st));
+    }
+    Some(out)
+}
+
+fn glyph_names(font: &FontRef, gids: impl Iterator<Item = u32>) -> Vec<String> {
+    match font.post() {
+        Err(_) => vec![],
+        Ok(p) => gids.map(|g| format!("{:?}", p.glyph_name(read_fonts::types::GlyphId16::new(g as u16)))).collect(),
+    }
+}
+
+fn run_meta_request(s: &mut Session, label: &str, data: &[u8], req: &Req) {
+    let Ok(font) = FontRef::new(data) else { return };
+    if font.cmap().is_err() {
+        return;
+    }
+    let input = input_str(label, req);
+    let planned = catch(|| {
+        let plan = make_plan(&font, req);
+        let view = vh::plan_view(&plan);
+        let meta = vh::plan_meta_view(&plan);
+        (plan, view, meta)
+    });
+    let Ok((plan, view, meta)) = planned else {
+        s.count("meta:plan-panicked");
+        return;
+    };
+    let result = catch(|| subset_font(&font, &plan));
+    let outcome = |tag: &[u8; 4]| -> (String, Option<Vec<u8>>) {
+        match &result {
+            Err(_) => ("trap".to_string(), None),
+            Ok(Err(_)) => ("err".to_string(), None),
+            Ok(Ok(bytes)) => match FontRef::new(bytes).ok().and_then(|f| table(&f, tag).map(|t| t.to_vec())) {
+                None => ("dropped".to_string(), None),
+                Some(t) => (format!("ok {}", hex(&t)), Some(t)),
+            },
+        }
+    };
+    if matches!(&result, Ok(Err(_))) {
+        s.count("meta:subset-font-error");
+        return;
+    }
+    let flags = req.flags;
+    let nat_list = |v: &[u32]| if v.is_empty() { "-".to_string() } else { join(v) };
+
+    // ---------------- OS/2
+    if let Some(t) = table(&font, b"OS/2") {
+        let (resp, out) = outcome(b"OS/2");
+        let line = format!(
+            "c17.os2 {} {} {} U {} T {}",
+            flags,
+            meta.os2_min_cmap_codepoint,
+            meta.os2_max_cmap_codepoint,
+            nat_list(&view.unicodes),
+            hex(t)
+        );
+        if t.len() >= 78 {
+            s.case("os2", line, resp.strip_prefix("ok ").unwrap_or(&resp).to_string());
+        }
+        s.count(if flags & F_NO_PRUNE != 0 { "os2:no-prune" } else { "os2:prune" });
+        s.count(&format!("os2:unicodes:{}", match view.unicodes.len() { 0 => "0", 1..=3 => "1-3", _ => "4+" }));
+        if view.unicodes.iter().any(|c| *c > 0xFFFF) {
+            s.count("os2:non-bmp-unicode");
+        }
+        s.oracle("os2-table-kept", out.is_some(), || input.clone(), || resp.clone());
+        if let Some(o) = out {
+            let cps: Vec<u32> = view.unicode_to_new_gid_list.iter().map(|(c, _)| *c).collect();
+            let want_first = cps.iter().min().copied().unwrap_or(0xFFFF).min(0xFFFF) as u16;
+            let want_last = cps.iter().max().copied().unwrap_or(0xFFFF).min(0xFFFF) as u16;
+            let rd = |b: &[u8], i: usize| u16::from_be_bytes([b[i], b[i + 1]]);
+            let ok_len = o.len() == t.len() && o.len() >= 68;
+            s.oracle(
+                "os2-first-last-char-index=min-max-retained",
+                ok_len && rd(&o, 64) == want_first && rd(&o, 66) == want_last,
+                || input.clone(),
+                || format!("got {:?} want {want_first} {want_last}", if ok_len { Some((rd(&o, 64), rd(&o, 66))) } else { None }),
+            );
+            let same = ok_len && (0..t.len()).all(|i| (42..58).contains(&i) || (64..68).contains(&i) || o[i] == t[i]);
+            s.oracle("os2-other-fields-identical", same, || input.clone(), || format!("{} vs {}", hex(&o), hex(t)));
+            if ok_len {
+                // bits are only ever cleared; a block that contains a retained character keeps its bit
+                let subset_of = (42..58).all(|i| o[i] & !t[i] == 0);
+                let bit = |b: &[u8], k: usize| (u32::from_be_bytes([b[42 + 4 * (k / 32)], b[43 + 4 * (k / 32)], b[44 + 4 * (k / 32)], b[45 + 4 * (k / 32)]]) >> (k % 32)) & 1 == 1;
+                let mut covered = true;
+                let mut miss = String::new();
+                if flags & F_NO_PRUNE != 0 {
+                    covered = (42..58).all(|i| o[i] == t[i]);
+                } else {
+                    for cp in &view.unicodes {
+                        for (a, b, k) in read_fonts::tables::os2::OS2_UNICODE_RANGES.iter() {
+                            if a <= cp && cp <= b && (*k as usize) < 128 && bit(t, *k as usize) && !bit(&o, *k as usize) {
+                                covered = false;
+                                miss = format!("cp {cp:x} bit {k}");
+                            }
+                        }
+                    }
+                    // bit 57 ("non plane 0") stays when a retained character lies beyond the BMP
+                    if view.unicodes.iter().any(|cp| (0x10000..=0x110000).contains(cp)) && bit(t, 57) && !bit(&o, 57) {
+                        covered = false;
+                        miss = "bit 57 cleared although a non-BMP character is retained".to_string();
+                    }
+                    // and a bit stays only if some retained character belongs to it
+                    for k in 0..128usize {
+                        if bit(&o, k) {
+                            let has = view.unicodes.iter().any(|cp| {
+                                (k == 57 && (0x10000..=0x110000).contains(cp))
+                                    || read_fonts::tables::os2::OS2_UNICODE_RANGES.iter().any(|(a, b, kk)| a <= cp && cp <= b && *kk as usize == k)
+                            });
+                            if !has {
+                                covered = false;
+                                miss = format!("bit {k} kept without a retained character");
+                            }
+                        }
+                    }
+                }
+                s.oracle("os2-unicode-ranges-pruned-exactly", subset_of && covered, || input.clone(), || miss.clone());
+            }
+        }
+    }
+
+    // ---------------- name
+    if let Some(t) = table(&font, b"name") {
+        if let (Ok(_), Some(recs)) = (font.name(), name_records(t)) {
+            let (resp, out) = outcome(b"name");
+            let rec_str = if recs.is_empty() {
+                "-".to_string()
+            } else {
+                recs.iter()
+                    .map(|(p, e, l, n, len, off, st)| {
+                        format!("{p} {e} {l} {n} {len} {off} {}", match st { None => "X".to_string(), Some(b) => hexs(b) })
+                    })
+                    .collect::<Vec<_>>()
+                    .join(" ")
+            };
+            let ids: Vec<u32> = meta.name_ids.iter().map(|x| *x as u32).collect();
+            let langs: Vec<u32> = meta.name_languages.iter().map(|x| *x as u32).collect();
+            let version0 = t.len() >= 2 && t[0] == 0 && t[1] == 0;
+            if version0 {
+                s.case("name", format!("c17.name {} I {} L {} R {}", flags, nat_list(&ids), nat_list(&langs), rec_str), resp.clone());
+            }
+            let legacy = flags & F_NAME_LEGACY != 0;
+            let keep = |p: u16, e: u16, l: u16, n: u16| {
+                meta.name_ids.contains(&n) && meta.name_languages.contains(&l) && (legacy || p == 0 || (p == 3 && [0u16, 1, 10].contains(&e)))
+            };
+            let mut want: Vec<(u16, u16, u16, u16, Vec<u8>)> = recs
+                .iter()
+                .filter(|x| keep(x.0, x.1, x.2, x.3))
+                .map(|x| (x.0, x.1, x.2, x.3, x.6.clone().unwrap_or_default()))
+                .collect();
+            let broken = recs.iter().any(|x| keep(x.0, x.1, x.2, x.3) && x.6.is_none());
+            s.count(if legacy { "name:legacy" } else { "name:unicode-only" });
+            s.count(&format!("name:retained:{}", match want.len() { 0 => "0", 1..=5 => "1-5", 6..=20 => "6-20", _ => "21+" }));
+            if want.iter().any(|w| w.4.is_empty()) {
+                s.count("name:retained-empty-string");
+            }
+            if broken {
+                s.count("name:hostile-string-out-of-bounds");
+            } else {
+                let got = out.as_ref().and_then(|o| name_records(o));
+                let mut got_v: Vec<(u16, u16, u16, u16, Vec<u8>)> = got
+                    .clone()
+                    .unwrap_or_default()
+                    .into_iter()
+                    .map(|x| (x.0, x.1, x.2, x.3, x.6.unwrap_or_else(|| b"<out of bounds>".to_vec())))
+                    .collect();
+                let sorted = got_v.windows(2).all(|w| (w[0].0, w[0].1, w[0].2, w[0].3) <= (w[1].0, w[1].1, w[1].2, w[1].3));
+                want.sort();
+                got_v.sort();
+                s.oracle("name-records-preserved", out.is_some() && want == got_v && sorted, || input.clone(), || {
+                    format!("outcome {} want {} records got {:?} sorted {sorted}", &resp[..resp.len().min(12)], want.len(), got.map(|g| g.len()))
+                });
+            }
+        }
+    }
+
+    // ---------------- post
+    if let Some(t) = table(&font, b"post") {
+        if font.post().is_ok() && t.len() >= 32 {
+            let (resp, out) = outcome(b"post");
+            let names_flag = flags & F_GLYPH_NAMES != 0;
+            let v2 = t[0..4] == [0, 2, 0, 0];
+            s.count(&format!("post:v{}{}:{}", t[1], t[2], if names_flag { "glyph-names" } else { "no-names" }));
+            if !(names_flag && v2) {
+                s.case("post", format!("c17.post {} {}", flags, hex(t)), resp.strip_prefix("ok ").unwrap_or(&resp).to_string());
+            }
+            s.oracle("post-table-kept", out.is_some(), || input.clone(), || resp.clone());
+            if let Some(o) = out {
+                let hdr_ok = o.len() >= 32 && o[4..32] == t[4..32];
+                let ver_ok = o.len() >= 4 && if names_flag { o[0..4] == t[0..4] } else { o[0..4] == [0, 3, 0, 0] && o.len() == 32 };
+                s.oracle("post-header-preserved", hdr_ok && ver_ok, || input.clone(), || format!("{} vs {}", hex(&o[..o.len().min(36)]), hex(&t[..36.min(t.len())])));
+                if names_flag {
+                    if let Ok(Ok(bytes)) = &result {
+                        if let Ok(sf) = FontRef::new(bytes) {
+                            let a = glyph_names(&font, view.new_to_old_gid_list.iter().map(|(_, o)| *o));
+                            let b = glyph_names(&sf, view.new_to_old_gid_list.iter().map(|(n, _)| *n));
+                            s.oracle("post-glyph-names-preserved", a == b, || input.clone(), || {
+                                let i = a.iter().zip(&b).position(|(x, y)| x != y);
+                                format!(
+                                    "first difference at plan entry {i:?} {:?}: {:?} vs {:?}; original post {} subset post {}",
+                                    i.map(|i| view.new_to_old_gid_list[i]),
+                                    i.map(|i| &a[i]),
+                                    i.map(|i| &b[i]),
+                                    hex(&t[..t.len().min(1200)]),
+                                    hex(&o[..o.len().min(1200)])
+                                )
+                            });
+                        }
+                    }
+                }
+            }
+        }
+    }
+}
+
+fn rand_meta_request(r: &mut Rng, n: usize, cps: &[u32]) -> Req {
+    let flags = *r.pick(&[0u16, 0, F_NAME_LEGACY, F_GLYPH_NAMES, F_NO_PRUNE, F_GLYPH_NAMES | F_RETAIN_GIDS, F_NAME_LEGACY | F_NO_PRUNE | F_GLYPH_NAMES, F_RETAIN_GIDS, F_GLYPH_NAMES | F_NOTDEF_OUTLINE]);
+    let mut req = rand_request(r, n, cps);
+    req.flags = flags;
+    if !cps.is_empty() && r.chance(2, 3) {
+        for _ in 0..r.below(5) {
+            req.unicodes.push(*r.pick(cps));
+        }
+        req.unicodes.sort();
+        req.unicodes.dedup();
+    }
+    req
+}
+
+pub fn run_meta(cfg: &Config, s: &mut Session, r: &mut Rng) {
+    let th = cfg.thorough();
+    // (β) synthetic fonts with hand-built name / OS/2 / post tables and a cmap spread over many unicode blocks
+    let cp_pool: Vec<u32> = vec![
+        0x20, 0x41, 0x7E, 0xE9, 0x153, 0x259, 0x2C7, 0x301, 0x3B1, 0x416, 0x5D0, 0x627, 0x915, 0xE01, 0x10D0, 0x1E00, 0x2013, 0x20AC,
+        0x2190, 0x2200, 0x25A0, 0x3042, 0x30A2, 0x4E00, 0xAC00, 0xD7A3, 0xE000, 0xFB01, 0xFE00, 0xFFFD, 0xFFFF, 0x10000, 0x1D400, 0x1F600,
+        0x20000, 0x2FA1D, 0x30000, 0xE0100, 0xF0000, 0x10FFFD,
+    ];
+    for id in 0..(if th { 1500u64 } else { 120 }) {
+        let mut sf = syn_small(r, 400_000 + id);
+        let n = if id % 9 == 4 { 258 } else { sf.npts.len() };
+        sf.npts = (0..n).map(|_| 3).collect();
+        sf.blobs.truncate(n);
+        sf.valid.truncate(n);
+        sf.tail_cut = 0;
+        // a version 1.0 post table (rand_post: id % 4 == 1 with 258 glyphs) names glyphs by position: a known finding
+        sf.name = if id % 4 == 1 && n == 258 { format!("syn:meta-postv1#{id}") } else { format!("syn:meta#{id}") };
+        let base = build_font(&sf);
+        let mut cps = cp_pool.clone();
+        r.shuffle(&mut cps);
+        cps.truncate(1 + r.below(14) as usize);
+        if id % 7 == 3 {
+            cps.clear();
+            cps.push(0x41);
+        }
+        let maps: Vec<(char, GlyphId)> = cps
+            .iter()
+            .filter_map(|c| char::from_u32(*c))
+            .enumerate()
+            .map(|(i, ch)| (ch, GlyphId::new(1 + (i % (n - 1)) as u32)))
+            .collect();
+        let cmap = write_fonts::dump_table(&write_fonts::tables::cmap::Cmap::from_mappings(maps).expect("cmap")).expect("cmap dump");
+        let data = with_tables(&base, vec![(*b"cmap", cmap), (*b"name", rand_name(r, id)), (*b"OS/2", rand_os2(r, id)), (*b"post", rand_post(r, id, n))]);
+        let font_cps: Vec<u32> = FontRef::new(&data).map(|f| f.charmap().mappings().map(|(c, _)| c).collect()).unwrap_or_default();
+        for _ in 0..(if th { 6 } else { 4 }) {
+            let req = rand_meta_request(r, n, &font_cps);
+            run_meta_request(s, &sf.name, &data, &req);
+        }
+    }
+    // (α) corpus fonts
+    let mut files: Vec<std::path::PathBuf> = vec![];
+    for dir in ["/repo/font-test-data/test_data/ttf", "/repo/klippa/test-data/fonts"] {
+        let mut fs: Vec<_> = std::fs::read_dir(dir).map(|d| d.filter_map(|e| e.ok()).map(|e| e.path()).collect()).unwrap_or_default();
+        fs.sort();
+        files.extend(fs);
+    }
+    for p in files {
+        let ext = p.extension().and_then(|e| e.to_str()).unwrap_or("");
+        if ext != "ttf" && ext != "otf" {
+            continue;
+        }
+        let Ok(data) = std::fs::read(&p) else { continue };
+        let Ok(font) = FontRef::new(&data) else { continue };
+        if font.cmap().is_err() || (table(&font, b"name").is_none() && table(&font, b"OS/2").is_none() && table(&font, b"post").is_none()) {
+            continue;
+        }
+        let n = font.maxp().map(|m| m.num_glyphs() as usize).unwrap_or(0);
+        if n == 0 {
+            continue;
+        }
+        s.count("meta:corpus-fonts");
+        let label = format!("corpus:{}", p.file_name().unwrap().to_string_lossy());
+        let cps: Vec<u32> = font.charmap().mappings().map(|(c, _)| c).take(3000).collect();
+        for _ in 0..(if th { 12 } else { 2 }) {
+            let req = rand_meta_request(r, n, &cps);
+            run_meta_request(s, &label, &data, &req);
+        }
     }
 }
